@@ -10,12 +10,13 @@ import Driver.BundleDrv
 import Driver.NwchemDrv
 import Driver.G94Drv
 import Driver.RefDrv
+import Driver.TmDrv
 /-! Line-protocol driver: one JSON request per line in, one JSON answer per line out.
 `{"op": name, ...}` ↦ handler answer, or `{"drv_error": msg}`. -/
 open Lean BSE.Drv
 
 def allHandlers : List (String × Handler) :=
-  BSE.Drv.C20.handlers ++ BSE.Drv.Shells.handlers ++ BSE.Drv.Store.handlers ++ BSE.Drv.MemoDrv.handlers ++ BSE.Drv.AuxDrv.handlers ++ BSE.Drv.HeaderDrv.handlers ++ BSE.Drv.PrintDrv.handlers ++ BSE.Drv.BundleDrv.handlers ++ BSE.Drv.NwchemDrv.handlers ++ BSE.Drv.G94Drv.handlers ++ BSE.Drv.G94Drv.ecpHandlers ++ BSE.Drv.RefDrv.handlers
+  BSE.Drv.C20.handlers ++ BSE.Drv.Shells.handlers ++ BSE.Drv.Store.handlers ++ BSE.Drv.MemoDrv.handlers ++ BSE.Drv.AuxDrv.handlers ++ BSE.Drv.HeaderDrv.handlers ++ BSE.Drv.PrintDrv.handlers ++ BSE.Drv.BundleDrv.handlers ++ BSE.Drv.NwchemDrv.handlers ++ BSE.Drv.G94Drv.handlers ++ BSE.Drv.G94Drv.ecpHandlers ++ BSE.Drv.RefDrv.handlers ++ BSE.Drv.TmDrv.handlers
 
 def handle (line : String) : String :=
   match Json.parse line with
